@@ -20,7 +20,7 @@ ASSUMPTIONS = ['offset of frame k is the double (t_start_k - t_start_0), as the 
                'array path / time profile only when all members have equal tchans',
                'tolerance as in C01']
 REQUIRED_CLASSES = ['frames>=2', 'fault', 'select=slice', 'select=label', 'select=index', 'smear', 'int_path', 'int_t',
-                    'overwrite', 'unix_scale', 'repeat', 'mixed_history', 'members_consolidated', 'fault_not_exception_subclass']
+                    'overwrite', 'unix_scale', 'repeat', 'mixed_history', 'members_consolidated', 'fault_not_exception_subclass', 'member_replaced_in_place']
 
 
 @st.composite
@@ -280,7 +280,20 @@ def run_case(case, ctx):
         if m >= 3:
             phases.append(('subcadence', members[1:], stg.Cadence(members[1:])))
         phases.append(('whole_again', members, target))
+        if m >= 2 and not case.get('consolidated'):
+            phases.append(('replaced', None, target))
         for pname, mem, tgt in phases:
+            if pname == 'replaced':
+                # the last member is replaced in place (cad[i] = frame) by an observation taken later; offsets follow the members
+                ok, new = core.call(obs, 'copy', members[-1].copy)
+                if not ok:
+                    break
+                new.t_start = members[-1].t_start + 123.5 * new.dt * new.tchans
+                ok, _ = core.call(obs, 'cadence.__setitem__', tgt.__setitem__, m - 1, new)
+                if not ok:
+                    break
+                mem = members = members[:-1] + [new]
+                obs.cls('member_replaced_in_place')
             path = S.stg_path(stg, ax0, sg['path'], smear)
             tprof = S.stg_t(stg, ax0, sg['t'])
             fprof = S.stg_f(stg, ax0, sg['f'])
